@@ -1,4 +1,5 @@
 import HexVerif.X.Sem
+import HexVerif.X.SemTrace
 import Drivers.Util
 /-!
   Line-protocol driver for the X reference semantics (`X.run`); mirrors harness/h_xcmp.cpp.
@@ -145,7 +146,17 @@ def handle (line : String) : String :=
     | .error w => "bad-input " ++ w
     | .ok P =>
       match X.run P { stdin := unhex stdin, files := parseFiles files } fuel.toNat! with
-      | .defined b => fmtBehaviour b
+      | .defined b =>
+        -- the call tree comes from the instrumented copy (X/SemTrace.lean); its plain observations must
+        -- coincide with those of the reference semantics proper
+        let (ctree, chk) :=
+          match XT.run P { stdin := unhex stdin, files := parseFiles files } fuel.toNat! with
+          | .defined t =>
+            (",".intercalate t.callTree,
+             if t.exit = b.exit && t.calls == b.calls && t.stdinConsumed == b.stdinConsumed && t.returned == b.returned
+                && t.events.length == b.events.length then "ok" else "DIFF")
+          | .undefined _ => ("", "DIFF")
+        fmtBehaviour b ++ s!" ctree={ctree} tracecheck={chk}"
       | .undefined why => "undefined " ++ why
   | _ => "bad-input fields"
 
